@@ -25,7 +25,6 @@ def label_view(lc, sample_pairs):
     cs = list(L)
     by_position = [L[i] for i in range(len(L))]
     if [id(c) for c in by_position] != [id(c) for c in cs] or [id(c) for c in reversed(L)] != [id(c) for c in cs[::-1]]:
-        from core import Disagreement
         raise Disagreement('lattice[i] for i in range(len(lattice)) (or reversed(lattice)) is not the iteration sequence')
     key = lambda c: (frozenset(c.extent), frozenset(c.intent))
     concepts_ = frozenset(key(c) for c in cs)
